@@ -28,6 +28,11 @@ def run(ctx: CheckContext):
     run_control(ctx, "C13/column-not-sliced", analyse, p.root, d,
                 "GT.GCC.value: pt[[PT.T.value, PT.H_NET.value, PT.H_NET_NP.value, PT.H_NET_V.value, PT.H_NET_A.value, PT.H_NET_UT.value]]",
                 "GT.GCC.value: pt[[PT.T.value, PT.H_NET.value, PT.H_NET_NP.value, PT.H_NET_A.value, PT.H_NET_UT.value]]", "T3")
+    run_control(ctx, "C13/accumulator-defaulted-by-truthiness", analyse, p.root, g,
+                "    if graph_sets is None:\n        graph_sets = {}\n    for key, t in zone.targets.items():\n        graph_sets[key] = _create_graph_set(t, key)\n\n"
+                "    if len(zone.subzones) > 0:\n        for z in zone.subzones.values():\n            graph_sets = get_output_graph_data(z, graph_sets)\n",
+                "    graph_sets = graph_sets or {}\n    for key, t in zone.targets.items():\n        graph_sets[key] = _create_graph_set(t, key)\n\n"
+                "    for z in zone.subzones.values():\n        get_output_graph_data(z, graph_sets)\n", "OR-DEFAULT")
     run_control(ctx, "C13/key-mismatch", analyse, p.root, g,
                 "                key=GT.SCC.value,\n                data=t.graphs[GT.SCC.value],", "                key=GT.SCC.value,\n                data=t.graphs[GT.CC.value],", "T3")
     run_control(ctx, "C13/short-flag-list", analyse, p.root, g,
